@@ -153,7 +153,7 @@ def main():
     OPT = "RRTstar InformedRRTstar SORRTstar RRTsharp RRTXstatic BITstar ABITstar AITstar EITstar EIRMstar PRMstar LazyPRMstar FMT BFMT LBTRRT LazyLBTRRT SST TRRT CForest AnytimePathShortening".split()
     pjobs = []
     for pl_ in OPT:
-        for objn in ("length", "integral", "work", "clearance"):
+        for objn in ("length", "integral", "work", "multi", "clearance"):
             for r in range(1 if quick else 6):
                 pjobs.append("CRUN %s %s %s %d %s %g %d %g %d" % (pl_, rng.choice(["R2", "SE2", "R3"]) if r else "R2", rng.choice(["boxes3", "gap", "circles5", "empty", "thin"]), rng.randint(0, 1), objn,
                                                                 rng.choice([0, 1.3, 2.0]), rng.randint(1, 10 ** 6), 0.25 if quick else 0.6, 3))
@@ -269,7 +269,7 @@ def main():
             sp = SPACES[spn]
             ptl = "[%s]" % "; ".join("(%s, %s)" % (sp.state_coq(pv), cq(cv)) for pv, cv in zip(pts, sc))
             third = ("mm_path FlA (fun a b => PrimFloat.ltb b a) infinity [%s]" % "; ".join("[%s]" % "; ".join(cq(v) for v in ev) for ev in mm)) if mm is not None else "0"
-            items.append("[cost_length FlA _ (distance FlA %s) %s; cost_integral FlA _ (distance FlA %s) %s; %s; cost_work FlA _ (distance FlA %s) %s %s]" % (sp.coq(), ptl, sp.coq(), ptl, third, sp.coq(), cq(0.05), ptl))
+            items.append("[cost_length FlA _ (distance FlA %s) %s; cost_integral FlA _ (distance FlA %s) %s; %s; cost_work FlA _ (distance FlA %s) %s %s; cost_multi FlA _ [(%s, length_motion FlA _ (distance FlA %s)); (%s, integral_motion FlA _ (distance FlA %s))] %s]" % (sp.coq(), ptl, sp.coq(), ptl, third, sp.coq(), cq(0.05), ptl, cq(1.0), sp.coq(), cq(0.05), sp.coq(), ptl))
         src += ";\n".join(items) + "].\n"
         path = os.path.join(c.outdir, "cases_cost_%d.v" % a)
         open(path, "w").write(src)
@@ -281,8 +281,8 @@ def main():
         for (j, k, si_, spn, objn, pts, sc, mm, tb), res in zip(part, parse_nested(o5)):
             ncost += 1
             def bits_(x): return "%016x" % struct.unpack("<Q", struct.pack("<d", x))[0]
-            mlen, mint, mmm, mwork = res
-            want = {"length": mlen, "integral": mint, "clearance": mmm, "work": mwork}[objn]
+            mlen, mint, mmm, mwork, mmulti = res
+            want = {"length": mlen, "integral": mint, "clearance": mmm, "work": mwork, "multi": mmulti}[objn]
             ok = bits_(mlen) == tb[1] and bits_(want) == tb[0]
             if len(pts) == 0: ok = True
             if not ok:
@@ -292,7 +292,7 @@ def main():
     c.cov.update({"path_costs_recomputed_by_model": ncost, "path_cost_disagreements": ncost_bad})
     c.cov.update({"planner_runs": len(pjobs), "planner_histogram": dict(pstats), "planner_failures_by_kind": dict(pfail)})
     c.cov["evaluations"] += len(pjobs) * 3
-    c.assumptions[:] = [a for a in c.assumptions if "planner-level clauses" not in a] + ["planner-level clauses are checked per run on 20 optimizing planners x {path length, state-cost integral, mechanical work over a sloped potential (the direction-dependent one), max-min clearance} x 3 consecutive solves, not proved; the weighted multi-objective is not exercised"]
+    c.assumptions[:] = [a for a in c.assumptions if "planner-level clauses" not in a] + ["planner-level clauses are checked per run on 20 optimizing planners x {path length, state-cost integral, mechanical work over a sloped potential (the direction-dependent one), the weighted multi-objective 1 x length + 0.05 x integral, max-min clearance} x 3 consecutive solves, not proved"]
     if first_pred and first_pred[0] == "PLANNER":
         c.violation("implementation violates C04: " + first_pred[1], "# C04 replay: build/harness/cost_driver <the line>\n" + first_pred[1].split(" :: ")[0] + "\n"); c.finish()
     if first_pred:
